@@ -348,6 +348,38 @@ theorem cancelKindFor_spec (w : World) (p : Pid) (act : Nat) (sig : Option Int) 
     subst this
     rw [he''.2] at hm; cases hm
 
+/-- the handles `cancelUserAll` goes after -/
+theorem mem_userPending {w : World} {k : Nat} :
+    k ∈ userPending w ↔ ∃ e ∈ w.ev.pending, e.item.a = aUser ∧ e.key = k := by
+  unfold userPending
+  simp only [List.mem_map, List.mem_filter, decide_eq_true_eq]
+  constructor
+  · rintro ⟨e, ⟨he, ha⟩, rfl⟩; exact ⟨e, he, ha, rfl⟩
+  · rintro ⟨e, he, ha, rfl⟩; exact ⟨e, ⟨he, ha⟩, rfl⟩
+
+/-- `cancelUserAll` (pattern cancel of the user events): afterwards no user event is pending, every other old event is
+    still pending, the count is the number of user events that were pending; only (aEvent, CANCELLED) wake-ups of event
+    waiters are added -/
+theorem cancelUserAll_spec (w : World) (hi : EvInv w.ev) :
+    CanRel w (cancelUserAll w).1 ∧
+    (∀ e ∈ (cancelUserAll w).1.ev.pending, e.item.a ≠ aUser) ∧
+    (∀ e ∈ w.ev.pending, e.item.a ≠ aUser → e ∈ (cancelUserAll w).1.ev.pending) ∧
+    (cancelUserAll w).2 = (w.ev.pending.filter fun e => e.item.a = aUser).length := by
+  unfold cancelUserAll
+  obtain ⟨hrel, hgone, hstay⟩ := cancelFold_spec (userPending w) w hi
+  refine ⟨hrel, ?_, ?_, by simp [userPending]⟩
+  · intro e he ha
+    rcases hrel.pend e he with hold | ⟨_, _, _, _, _, _, heq⟩
+    · exact hgone e he (EvInv.key_le hi hold) (mem_userPending.2 ⟨e, hold, ha, rfl⟩)
+    · rw [heq] at ha; simp [mkEv, aEvent, aUser] at ha
+  · intro e he ha
+    apply hstay e he
+    intro hk
+    obtain ⟨e', he', ha', hkk⟩ := mem_userPending.1 hk
+    have : e' = e := HashHeap.eq_of_key_eq hi.part.keysNodup he' he hkk
+    subst this
+    exact ha ha'
+
 theorem pendingOf_eq (w : World) (p : Pid) :
     pendingOf w p = (w.ev.pending.filter fun e => e.item.b = p + 1).map (·.key) := rfl
 
